@@ -428,6 +428,7 @@ func init() {
 			c.EntryAlignment("C14", s, "att")
 			c.EntryAlignment("C14", s, "prop")
 			c.RulerLocking("C14")
+			c.LockerInternals("C15")
 			c.SignIffApproved("C14", map[string]bool{"SignBeaconProposal": true, "SignBeaconAttestation": true, "SignBeaconAttestations": true})
 			c.SigningRootProvenance("C14")
 			c.StoreCommit("C03", s)
